@@ -787,7 +787,10 @@ impl CxxCodeBodyTranslator {
                     writeln!(w, "return {};", self.format_operand(x))?;
                 }
                 CxxCodeReturnKind::Void => {
-                    writeln!(w, "static_cast<void>({});", self.format_operand(x))?;
+                    // constant has no effect to be kept, and "{}" (empty list) isn't an expression
+                    if !matches!(x, Operand::Constant(_)) {
+                        writeln!(w, "static_cast<void>({});", self.format_operand(x))?;
+                    }
                     writeln!(w, "return;")?;
                 }
             },
